@@ -45,6 +45,7 @@ def run(tier, wd):
     tc.add_tree(rep, wd, binpath, alphabet, pols, "c04-dash", T.dash_tree(), trs, rows)
     tc.add_tree(rep, wd, binpath, alphabet, pols, "c04-blank", T.blank_tree(), trs, rows)
     tc.add_tree(rep, wd, binpath, alphabet, pols, "c04-cluster", T.cluster_tree(), trs, rows)
+    tc.add_tree(rep, wd, binpath, alphabet, pols, "c04-alias", T.alias_tree(), trs, rows)
     rows_h = tc.add_tree(rep, wd, binpath, alphabet, pols, "c04-hidden", T.hidden_tree(), trs, rows)
     rows_l = tc.add_tree(rep, wd, binpath, alphabet, pols, "c04-late", T.late_tree(), trs, rows)
     nre = tc.rerun(rep, wd, binpath, trs, rows_h, lambda c: [["-h"], ["bogus"]], CLAUSES, "after earlier runs")
